@@ -281,3 +281,23 @@ fn x_bounds_of_two_numeric_types_do_not_panic() {
     let fx = fixture(&[N::I(1), N::I(2), N::I(3)]);
     assert_eq!(parse_and_run(&fx, "j.k:[1 TO 2.5]"), vec![0, 1]);
 }
+
+// Recorded 2026-09-25 on the unchanged /repo (14 tests: 1 passed, 13 failed):
+//   a_u64_lower_bound_above_i64_max_on_i64_column_matches_nothing   FAILED  I64 [-5, 0, 7]   [U 2^63, *]      matched [1, 2]     direct []
+//   a_same_through_the_query_parser                                 FAILED  j.k:[9223372036854775808 TO *]  matched [1, 2]
+//   b_fractional_positive_lower_bound_on_i64_column                 FAILED  I64 [1, 2, 3]    [F 1.5, *]       matched [0, 1, 2]  direct [1, 2]
+//   b_fractional_positive_lower_bound_on_u64_column                 FAILED  U64 [1, 2, MAX]  [F 1.5, *]       matched [0, 1, 2]  direct [1, 2]
+//   b_fractional_negative_upper_bound_on_i64_column                 FAILED  I64 [-3,-2,-1]   [*, F -1.5]      matched [0, 1, 2]  direct [0, 1]
+//   b_same_through_the_query_parser                                 FAILED  j.k:[1.5 TO *]   matched [0, 1, 2]
+//   b_controls_fractional_upper_positive_and_lower_negative         ok
+//   c_f64_upper_bound_below_type_minimum_matches_nothing_u64_column FAILED  U64 [1, MAX]     [*, F -0.5]      matched [0, 1]     direct []
+//   c_f64_upper_bound_below_type_minimum_matches_nothing_i64_column FAILED  I64 [-5, 7]      [F -1e30, F -1e19] matched [0, 1]   direct []
+//   c_same_through_the_query_parser                                 FAILED  j.k:[* TO -0.5]  matched [0, 1]
+//   d_f64_bound_equal_to_two_pow_64_on_u64_column                   FAILED  U64 [1, MAX]     [F 2^64, *]      matched [1]        direct []
+//   d_f64_bound_equal_to_two_pow_63_on_i64_column                   FAILED  I64 [1, MAX]     [F 2^63, *]      matched [1]        direct []
+//   e_integer_bound_not_representable_in_f64_on_f64_column          FAILED  F64 [0.5, 2^53, 2^53+4]  [I 2^53+1, *]  matched [1, 2]  direct [2]
+//   x_bounds_of_two_numeric_types_do_not_panic                      FAILED  panicked at src/query/range_query/range_query_fastfield.rs:282:64:
+//                                                                           called `Option::unwrap()` on a `None` value
+// With /tmp/rb2/fix.patch applied (search_on_json_numerical_field: Excluded(u64::MAX) for class A, transform_int_bounds_to_f64 for
+// class E; transform_from_f64_bounds: ceil / floor, `>=` against MAX as f64, "no hits" for an upper bound below the minimum):
+// 13 passed, only x_* still fails (not addressed by the patch); `cargo test --offline -p tantivy --lib query::range_query`: 34 passed.
